@@ -213,7 +213,22 @@ pub fn minimise(prop: &str, oracle: &str, case: &Case, budget: usize) -> (Case, 
     let mut progress = true;
     while progress && used < budget {
         progress = false;
-        // 1. drop ops, from the end
+        // 1. drop ops: blocks of halving size first (ddmin style), then singly from the end
+        let mut block = best.ops().len() / 2;
+        while block >= 2 && used < budget {
+            let mut i = 0usize;
+            while i + block <= best.ops().len() && used < budget {
+                let mut cand = best.clone();
+                cand.ops_mut().drain(i..i + block);
+                if try_case(&cand, &mut used) {
+                    best = cand;
+                    progress = true;
+                } else {
+                    i += block;
+                }
+            }
+            block /= 2;
+        }
         let mut i = best.ops().len();
         while i > 0 && used < budget {
             i -= 1;
@@ -280,23 +295,40 @@ pub fn minimise(prop: &str, oracle: &str, case: &Case, budget: usize) -> (Case, 
                 }
             }
         }
-        // 3. shorten the stream: delete units (from the end), then simplify them
+        // 3. shorten the stream: delete blocks of halving size, then single units
+        // (from the end), then simplify what is left
+        let remove_units = |c: &mut Case, at: usize, n: usize| match c {
+            Case::Dec { spec, .. } => {
+                spec.stream.drain(at..at + n);
+            }
+            Case::Enc { spec, .. } => {
+                spec.text.drain(at..at + n);
+            }
+            Case::Mem { spec, .. } => {
+                spec.src.drain(at..at + n);
+            }
+        };
+        let mut block = best.stream_len() / 2;
+        while block >= 2 && used < budget {
+            let mut at = 0usize;
+            while at + block <= best.stream_len() && used < budget {
+                let mut cand = best.clone();
+                remove_units(&mut cand, at, block);
+                if try_case(&cand, &mut used) {
+                    best = cand;
+                    progress = true;
+                } else {
+                    at += block;
+                }
+            }
+            block /= 2;
+        }
         let n = best.stream_len();
         let mut j = n;
         while j > 0 && used < budget {
             j -= 1;
             let mut cand = best.clone();
-            match &mut cand {
-                Case::Dec { spec, .. } => {
-                    spec.stream.remove(j);
-                }
-                Case::Enc { spec, .. } => {
-                    spec.text.remove(j);
-                }
-                Case::Mem { spec, .. } => {
-                    spec.src.remove(j);
-                }
-            }
+            remove_units(&mut cand, j, 1);
             if try_case(&cand, &mut used) {
                 best = cand;
                 progress = true;
@@ -424,7 +456,7 @@ pub fn replay_seed(v: &Value, path: &Path) -> i32 {
     let prop = v.get("property").and_then(|x| x.as_str()).unwrap_or("").to_string();
     let seed = v.get("verif_seed").and_then(|x| x.as_u64()).unwrap_or(1);
     let idx = v.get("run_index").and_then(|x| x.as_u64()).unwrap_or(0);
-    let skip = v.get("skip_fast_utf8").and_then(|x| x.as_bool()).unwrap_or(false);
+    let skip = v.get("skip_fast_utf8").and_then(|x| x.as_bool()).unwrap_or_else(|| mix64(seed ^ idx.wrapping_mul(0xD6E8_FEB8_6659_FD93)) % 6 == 0);
     if v.get("tiny").and_then(|x| x.as_bool()).unwrap_or(false) {
         crate::gen::set_tiny(true);
     }
